@@ -734,6 +734,35 @@ func checkC19(R *Run) {
 			ok = written
 			why = "what is written to disk is not the new text"
 		}
+		// … and the board file is only replaced by a temp file that was written completely: a failed write must not be
+		// renamed over the posts that were acknowledged earlier
+		if ok {
+			nRen := 0
+			for _, ci := range callsIn(fn) {
+				c := ci.Common()
+				if calleeName(c) != "os.Rename" || classifyPath(P.sym(c.Args[1])).kind != "live" {
+					continue
+				}
+				nRen++
+				srcSym := P.sym(c.Args[0])
+				steps := P.writeStepsOn(fn, func(p ssa.Value) bool { return P.sym(p) == srcSym }, 0)
+				if len(steps) == 0 {
+					ok, why = false, "the file renamed onto the board file is not written in FlatNews.Write"
+				}
+				for _, st := range steps {
+					if st.err == nil {
+						ok, why = false, "the error of "+st.what+" at "+P.ipos(st.ins)+" is dropped before the rename"
+						continue
+					}
+					if st.ins.Block() == ci.Block() || nilReach(st.ins, map[ssa.Value]bool{st.err: false})[ci.Block()] {
+						ok, why = false, "the rename onto the board file at "+P.ipos(ci)+" is reached although "+st.what+" at "+P.ipos(st.ins)+" failed: a truncated temp file replaces the board and the posts acknowledged earlier are gone after a restart"
+					}
+				}
+			}
+			if nRen == 0 {
+				ok, why = false, "the new text is never renamed onto the board file"
+			}
+		}
 		R.check(ok, "post-order", "mobius.FlatNews.Write", P.pos(fn.Pos()), "data = post ++ data under the mutex, then persisted", why)
 	}
 	var postHandler *ssa.Function
